@@ -231,5 +231,6 @@ pub fn property() -> Property {
         assumptions: &[
             "NC is encoded as bits 576, never as the lone bit 512; lazer legs use try_with_mode and are skipped when the mode lacks a mod",
         ],
+        enumerate: None,
     }
 }
